@@ -16,6 +16,7 @@ mod c14;
 mod c15;
 mod c16;
 mod c17;
+mod c18;
 mod c19;
 mod c20;
 mod reftest;
@@ -75,6 +76,7 @@ fn main() {
         "C15" => c15::run(report),
         "C16" => c16::run(report),
         "C17" => c17::run(report),
+        "C18" => c18::run(report),
         "C19" => c19::run(report),
         "C20" => c20::run(report),
         _ => {
